@@ -141,7 +141,25 @@ Proof.
     + rewrite !rescale_up_exp. lia.
 Qed.
 
-Lemma ldc_amount_refines cr c sum fs qty q ch d : den sum fs -> toQ qty == q ->
+(* rate x quantity keeps every decimal: the product is exact *)
+Lemma rate_times_exact r q : rate_times r q = mkA (val r * val q) (exp r + exp q).
+Proof.
+  unfold rate_times, mul. rewrite rescale_up_exp.
+  replace (Nat.max (exp r) (exp r + exp q)) with (exp r + exp q)%nat by lia. f_equal.
+  unfold rescale_up. destruct (Nat.ltb (exp r) (exp r + exp q)) eqn:E.
+  - rewrite rescale_up_val by lia. replace (exp r + exp q - exp r)%nat with (exp q) by lia.
+    apply rha_exact; [apply pow10_pos|ring].
+  - apply Nat.ltb_ge in E. assert (Z0 : exp q = 0%nat) by lia. rewrite Z0, pow10_0, rha_1. reflexivity.
+Qed.
+
+Lemma den_rate_times r q fqty : den q fqty -> den (rate_times r q) (mkF (toQ r * fq fqty) (exp r + fp fqty)).
+Proof.
+  intros [H1 H2]. rewrite rate_times_exact. split; cbn [fq fp exp]; [|rewrite H2; reflexivity].
+  rewrite <- H1. unfold toQ, Qeq, Qmult. cbn [val exp Qnum Qden].
+  rewrite Pos2Z.inj_mul, !pos_pow10, pow10_add. ring.
+Qed.
+
+Lemma ldc_amount_refines cr c sum fs qty q ch d : den sum fs -> den qty q ->
   den (ldc_amount cr c sum qty ch d) (s_row rnd cr c fs q ch d).
 Proof.
   intros Hs Hq. unfold ldc_amount, s_row. apply den_apply_rr.
@@ -158,10 +176,10 @@ Proof.
     - apply den_of_amount. }
   destruct ch; [|exact A1].
   destruct (ld_rate d) as [r|]; [|exact A1].
-  apply den_mul; [apply den_of_amount|]. destruct (ld_qty d); [reflexivity|exact Hq].
+  apply den_rate_times. destruct (ld_qty d); [apply den_of_amount|exact Hq].
 Qed.
 
-Lemma ldc_amounts_refines cr c sum fs qty q ch ds : den sum fs -> toQ qty == q ->
+Lemma ldc_amounts_refines cr c sum fs qty q ch ds : den sum fs -> den qty q ->
   Forall2 den (ldc_amounts cr c sum qty ch ds) (map (s_row rnd cr c fs q ch) ds).
 Proof.
   intros Hs Hq. unfold ldc_amounts. induction ds as [|d r IH]; cbn [map]; constructor; [|exact IH].
@@ -230,8 +248,8 @@ Proof.
   split; [exact P|]. split; [exact S|].
   assert (D : forall ch xs, Forall2 den
      (ldc_amounts cr c (apply_rr cr c (mul (if cr then sp else rescale_up sp (c + line_precision_extra)) (sl_qty sl))) (sl_qty sl) ch xs)
-     (map (s_row rnd cr c (settle rnd cr c (prod rnd (if cr then fsp else raise (c + 2) fsp) (toQ (sl_qty sl)))) (toQ (sl_qty sl)) ch) xs)).
-  { intros ch xs. apply ldc_amounts_refines; [exact S|reflexivity]. }
+     (map (s_row rnd cr c (settle rnd cr c (prod rnd (if cr then fsp else raise (c + 2) fsp) (toQ (sl_qty sl)))) (of_amount (sl_qty sl)) ch) xs)).
+  { intros ch xs. apply ldc_amounts_refines; [exact S|apply den_of_amount]. }
   split; [|split; [apply D|apply D]].
   apply total_refines; [exact S|apply D|apply D].
 Qed.
@@ -296,8 +314,8 @@ Proof.
   split; [exact P|]. split; [exact S|].
   assert (D : forall ch xs, Forall2 den
      (ldc_amounts cr c (apply_rr cr c (mul (rescale_up price e) (ln_qty l))) (ln_qty l) ch xs)
-     (map (s_row rnd cr c (settle rnd cr c (prod rnd (raise (wmin cr c) fprice) (toQ (ln_qty l)))) (toQ (ln_qty l)) ch) xs)).
-  { intros ch xs. apply ldc_amounts_refines; [exact S|reflexivity]. }
+     (map (s_row rnd cr c (settle rnd cr c (prod rnd (raise (wmin cr c) fprice) (toQ (ln_qty l)))) (of_amount (ln_qty l)) ch) xs)).
+  { intros ch xs. apply ldc_amounts_refines; [exact S|apply den_of_amount]. }
   split; [|split; [apply D|split; [apply D|exact PS]]].
   apply total_refines; [exact S|apply D|apply D].
 Qed.
